@@ -11,6 +11,8 @@ import (
 	"github.com/olive-io/bpmn/v2/pkg/tracing"
 	"github.com/olive-io/bpmn/v2/verifrt"
 
+	"verif/harness/c01"
+	"verif/harness/drv"
 	"verif/harness/h"
 )
 
@@ -282,6 +284,28 @@ func init() {
 			add(params{Senders: 3, Per: 3, Subs: []script{E(0), Eu(2, 1), Lu(3, 0)}}, d(3))
 			add(params{Senders: 2, Per: 2, Subs: []script{E(0), Lu(1, 0)}, Relay: true}, d(3))
 			add(params{Senders: 8, Per: 1, Subs: []script{E(0), Eu(4, 1), L(0), Lu(2, 2)}}, d(2))
+		}
+		// engine clause: the causality grammar (the FlowTrace announcing new flows precedes the
+		// first trace of each of them, visit before leave, termination last) on engine runs of
+		// programs with forks of every kind, under schedules that preempt the forking flow
+		engine := []*drv.Block{
+			drv.Par(drv.T(), drv.T()), drv.Par(drv.T(), drv.T(), drv.T()), drv.Incl(-1, drv.T(), drv.T(), drv.T()), drv.Side(),
+			drv.Seq(drv.Par(drv.T(), drv.T()), drv.T()), drv.SubB(drv.Par(drv.T(), drv.T())), drv.LoopB(drv.Par(drv.T(), drv.T())), drv.Xor(1, drv.T(), drv.E()),
+		}
+		for i, b := range engine {
+			bounds := []int{0, 1}
+			if tier == "thorough" && i < 4 {
+				bounds = append(bounds, 2)
+			}
+			for _, d := range bounds {
+				sc := c01.Scenario("C09", 100+i, b, d)
+				sc.Name = fmt.Sprintf("C09/engine/%s/d%d", b.String(), d)
+				sc.Weight = 50 * (1 + 100*d*d)
+				if d >= 1 {
+					sc.Split = 4 * d * d
+				}
+				out = append(out, sc)
+			}
 		}
 		return out, nil
 	})
